@@ -252,6 +252,10 @@ LeafWhys(c, lf) ==
     \* probability 1/bound by C01) and determine the password, so the password has at least that probability: pp >= 2^Entropy
     IF res.kind = "ok" /\ lf.unann = 0 /\ lf.left = 0 /\ res.ent.k = "fin" /\ lf.pp # <<>> /\ ~EntropyNotAbove(res.ent, lf.pp, Tol)
       THEN "P:C06:the-choices-that-produced-this-password-are-likelier-than-2^-Entropy" ELSE "ok",
+    \* Process!LimitsAreTheCallers: MaxTrials / MaxFailRate are the caller's; a call that writes them (even to put them back later)
+    \* races with every concurrent call that reads them, and runs itself under limits nobody configured
+    IF lf.cfg = 1 THEN "P:C14:a-call-changed-the-process-wide-attempt-limits-while-it-ran" ELSE "ok",
+    IF lf.cfg = 1 THEN "P:C13:the-attempt-limits-in-force-during-a-call-are-not-the-configured-ones" ELSE "ok",
     IF lf.det = 0 THEN "P:C09:same-choices-from-the-source-gave-a-different-result" ELSE "ok",
     IF res.kind = "ok" /\ lf.reads = 0 /\ c.size > 1 THEN "P:C09:password-produced-without-reading-the-random-source" ELSE "ok",
     IF lf.unann > 0 THEN "S:random-source-read-without-an-announced-bounded-draw" ELSE "ok",
